@@ -38,18 +38,18 @@ Proof. vm_compute. repeat split. tauto. Qed.
 
 (* BOUNDED (reflection): the backtracking enumeration returns every connected vertex set that
    contains the root exactly once, and nothing else (every graph on <= 5 vertices, every root);
-   also under the reversed iteration order of every candidate set (<= 4 vertices). *)
+   also under the reversed iteration order of every candidate set (a second schedule). *)
 Theorem C15_enum_ok_upto_5 :
   forall k es r, k <= 5 -> In es (sublists (all_pairs k)) -> r < k ->
   enum_ok (seq 0 k, es) r (enum (seq 0 k, es) r).
 Proof. exact enum_ok_upto_5. Qed.
 Print Assumptions C15_enum_ok_upto_5.
 
-Theorem C15_enum_rev_ok_upto_4 :
-  forall k es r, k <= 4 -> In es (sublists (all_pairs k)) -> r < k ->
+Theorem C15_enum_rev_ok_upto_5 :
+  forall k es r, k <= 5 -> In es (sublists (all_pairs k)) -> r < k ->
   enum_ok (seq 0 k, es) r (enum_ord (@rev nat) (seq 0 k, es) r).
-Proof. exact enum_rev_ok_upto_4. Qed.
-Print Assumptions C15_enum_rev_ok_upto_4.
+Proof. exact enum_rev_ok_upto_5. Qed.
+Print Assumptions C15_enum_rev_ok_upto_5.
 
 (* GENERAL: on ONE evaluator, for every history of calls (any motifs of any size, roots, phi, u, in
    any interleaving) in which equal names denote equal motifs, every returned value (or raised
